@@ -31,10 +31,10 @@ PROPS["C29"] = dict(
     level="exploration",
     technique="differential monitor against a 15-line reference LRU: exhaustive enumeration of all short operation sequences (both cache types, capacities 0-4), plus client-boundary histories of real concurrent threads checked for linearizability (Wing-Gong search); Miri seeds in the thorough tier",
     stages=[rust(), py("pyref.stages.miri", args={"bin": "c29", "prop": "C29", "seeds": 192, "args": "3"}, tiers=["thorough"])],
-    rule="sequential part: every sequence over {get(k),put(k,fresh),clear,len}, k in 0..2, of length <= L (7 quick / 9 thorough) x capacities 0..4 x {LruCache, ObjectCache}, compared step by step with the reference and probed for membership at the end; concurrent part: random plans of 2-3 threads x 3-5 ops on ObjectCache (capacity 1-3) with seeded spins, history stamped at the client boundary from one atomic clock and searched for a linearization. distinct_nontrivial counts sequences that force an eviction plus distinct concurrent histories in which operations of different threads really overlapped",
+    rule="sequential part: every sequence over {get(k),put(k,fresh),clear,len} (a) with 5 keys up to length 6 (quick) / 7 (thorough) x capacities 0..4 x {LruCache, ObjectCache}, plus one more length for capacities 3,4 on LruCache, (b) with 3 keys up to length 7 / 9, compared step by step with the reference and probed for membership of every key at the end; (c) random long sequences (8-57 ops, 2-8 keys, capacity 0-6); concurrent part: random plans of 2-3 threads x 3-5 ops on ObjectCache (capacity 1-3) with seeded spins, history stamped at the client boundary from one atomic clock, followed by a quiescent epilogue (len, get of every key, len), searched for a linearization. distinct_nontrivial counts sequences that force an eviction plus distinct concurrent histories in which operations of different threads really overlapped",
     assumptions=["reference LRU model in harness/src/wl/c29_core.rs", "interleavings are whatever the OS scheduler and seeded spins produced (and Miri's seeded scheduler in the thorough tier); they are counted, not enumerated"],
-    floors={"quick": {"evaluations": 1_000_000, "distinct": 10_000, "counters": {"concurrent_histories_with_real_overlap": 2000}},
-            "thorough": {"evaluations": 10_000_000, "distinct": 100_000, "counters": {"concurrent_histories_with_real_overlap": 20000}}},
+    floors={"quick": {"evaluations": 50_000_000, "distinct": 1_000_000, "counters": {"concurrent_histories_with_real_overlap": 3000}},
+            "thorough": {"evaluations": 500_000_000, "distinct": 10_000_000, "counters": {"concurrent_histories_with_real_overlap": 200000}}},
     level_text="Sequential behaviour is enumerated completely up to the stated length (exhaustive for that bound); concurrent behaviour is sampled: each recorded history is decided exactly by the linearizability search, but only the interleavings that occurred are covered.",
     level_note="Trusted base: the reference LRU and the linearizability search in the harness. No claim about interleavings that did not occur.",
 )
